@@ -1802,7 +1802,7 @@ _RE_ITER_NEXT = re.compile(r'Iterator>?::next$')
 _RE_VIEW = re.compile(r'::(deref|deref_mut|as_str|as_mut_str|as_ref|borrow|into_iter)$')
 _RE_OWN = re.compile(r'::(to_owned|to_string|clone|into|from)$')
 _RE_STR = re.compile(r'^(core::str::<impl str>|alloc::string::String)::(\w+)(::<.*>)?$')
-_RE_OPT = re.compile(r'^core::option::Option::<T>::(is_some|is_none|unwrap|expect|unwrap_or_default)$')
+_RE_OPT = re.compile(r'^core::option::Option::<T>::(\w+)(::<.*>)?$')
 
 
 def _arg_oracle(modprefix):
@@ -1829,24 +1829,32 @@ def _arg_oracle(modprefix):
                 s.events.append(('x-consume', how, sym.body.fn, t.get('line')))
             return refine
 
-        def call_pred(pred, item):
-            """Alternatives [(bool value or unknown, refine)] of predicate(item)."""
-            pred = sym.resolve(st, pred)
-            cb = None
-            if pred[0] == 'agg' and isinstance(pred[2], str) and pred[2].startswith('closure '):
-                cb = sym.F.bodies.get(pred[2][len('closure '):])
-                if cb is not None and cb.argc == 2:
-                    env = pred
+        def call_fn(fnval, argvals):
+            """Alternatives of calling a closure / fn item of the workspace: ('fork', [(None, value, {}, refine)]) or None."""
+            fnval = sym.resolve(st, fnval)
+            if fnval[0] == 'agg' and isinstance(fnval[2], str) and fnval[2].startswith('closure '):
+                cb = sym.F.bodies.get(fnval[2][len('closure '):])
+                if cb is not None and cb.argc == 1 + len(argvals):
+                    env = fnval
                     if cb.locals[1]['ty'].startswith('&'):
                         root = ('M', 'closure-env@%s' % t.get('line'))
-                        st.mem[root] = pred
+                        st.mem[root] = fnval
                         env = ('ref', root, ())
-                    return _subcall(sym, st, cb, [env, item])
-            elif pred[0] == 'c' and isinstance(pred[1], str) and pred[1].startswith('fn '):
-                cb = sym.F.bodies.get(pred[1][3:])
-                if cb is not None and cb.argc == 1:
-                    return _subcall(sym, st, cb, [item])
+                    return _subcall(sym, st, cb, [env] + list(argvals))
+            elif fnval[0] == 'c' and isinstance(fnval[1], str) and fnval[1].startswith('fn '):
+                cb = sym.F.bodies.get(fnval[1][3:])
+                if cb is not None and cb.argc == len(argvals):
+                    return _subcall(sym, st, cb, list(argvals))
             return None
+
+        def call_pred(pred, item):
+            return call_fn(pred, [item])
+
+        def mapped(res, f):
+            """The alternatives `res` with f applied to each value."""
+            if res is None:
+                return None
+            return ('fork', [(a[0], f(a[1]), a[2], a[3] if len(a) > 3 else None) for a in res[1]])
 
         decl = t['f'].get('decl') or ''
         name = (t['f'].get('def') or decl)
@@ -1963,13 +1971,40 @@ def _arg_oracle(modprefix):
         if m and args:
             v = sym.deref(st, args[0])
             if v is not None and v[0] == 'enum' and v[1] in ('Some', 'None'):
-                if m.group(1) == 'is_some':
-                    return ('c', v[1] == 'Some')
-                if m.group(1) == 'is_none':
-                    return ('c', v[1] == 'None')
-                if v[1] == 'Some' and m.group(1) in ('unwrap', 'expect'):
-                    return sym.field(v, '0')
+                op, some = m.group(1), v[1] == 'Some'
+                x = sym.field(v, '0') if some else None
+                if op == 'is_some':
+                    return ('c', some)
+                if op == 'is_none':
+                    return ('c', not some)
+                if some and op in ('unwrap', 'expect', 'unwrap_or', 'unwrap_or_default', 'unwrap_or_else'):
+                    return x
+                if not some and op == 'unwrap_or' and len(args) == 2:
+                    return args[1]
+                if op in ('is_some_and', 'is_none_or') and len(args) == 2:
+                    return call_fn(args[1], [x]) if some else ('c', op == 'is_none_or')
+                if op == 'map' and len(args) == 2:
+                    return mapped(call_fn(args[1], [x]), lambda r: mk_enum('Some', r)) if some else mk_enum('None')
+                if op == 'map_or' and len(args) == 3:
+                    return call_fn(args[2], [x]) if some else args[1]
+                if op == 'and_then' and len(args) == 2:
+                    return call_fn(args[1], [x]) if some else mk_enum('None')
+                if op == 'filter' and len(args) == 2:
+                    if not some:
+                        return mk_enum('None')
+                    root = ('M', 'filter-item@%s' % t.get('line'))
+                    st.mem[root] = x
+                    res = call_fn(args[1], [('ref', root, ())])
+                    if res is None or any(a[1] not in (('c', True), ('c', False)) for a in res[1]):
+                        return None
+                    return mapped(res, lambda r: v if r == ('c', True) else mk_enum('None'))
+                if op in ('as_ref', 'as_deref', 'copied', 'cloned', 'as_mut'):
+                    return v
             return None
+        if name == 'core::bool::<impl bool>::then_some' and len(args) == 2 and args[0][0] == 'c' and isinstance(args[0][1], bool):
+            return mk_enum('Some', args[1]) if args[0][1] else mk_enum('None')
+        if name.startswith('core::bool::<impl bool>::then') and len(args) == 2 and args[0][0] == 'c' and isinstance(args[0][1], bool):
+            return mapped(call_fn(args[1], []), lambda r: mk_enum('Some', r)) if args[0][1] else mk_enum('None')
         # ---- helpers of the same module (a test of the text moved into `fn is_short_option(&str) -> bool`, a nested fn, ...)
         d = t['f'].get('def')
         if d and d.startswith(modprefix) and d in sym.F.bodies and any(text(a) is not None or is_args(a) for a in args):
